@@ -257,23 +257,26 @@ def model_build(pid, run_module, fn="run"):
 # ------------------------------------------------------------------ cargo
 
 def cargo_build(crate, profile="debug", features=None, target_subdir=None):
+    """Each harness crate is its own (empty) workspace under harness/<crate>; they share one target dir."""
     os.makedirs(BUILD, exist_ok=True)
+    cdir = os.path.join(HARNESS, crate)
+    if not os.path.exists(os.path.join(cdir, "Cargo.toml")):
+        return None, "no such harness crate: " + cdir
     lock_src = os.path.join(REPO, "Cargo.lock")
-    lock_dst = os.path.join(HARNESS, "Cargo.lock")
-    # keep our lock file if it already resolves; seed it from /repo's otherwise
+    lock_dst = os.path.join(cdir, "Cargo.lock")
     if not os.path.exists(lock_dst):
         shutil.copy(lock_src, lock_dst)
     tdir = TARGET if not target_subdir else os.path.join(BUILD, target_subdir)
-    cmd = ["cargo", "build", "--offline", "-p", crate]
+    cmd = ["cargo", "build", "--offline"]
     if profile == "release":
         cmd.append("--release")
     if features:
         cmd += ["--features", ",".join(features)]
     env = {"RUSTFLAGS": "--cfg %s" % GUARD, "CARGO_TARGET_DIR": tdir}
-    rc, out = sh(cmd, cwd=HARNESS, timeout=3000, env=env)
-    if rc != 0 and "Cargo.lock" in out and "needs to be updated" in out:
+    rc, out = sh(cmd, cwd=cdir, timeout=3000, env=env)
+    if rc != 0 and "Cargo.lock" in out:
         shutil.copy(lock_src, lock_dst)
-        rc, out = sh(cmd, cwd=HARNESS, timeout=3000, env=env)
+        rc, out = sh(cmd, cwd=cdir, timeout=3000, env=env)
     if rc != 0:
         return None, out[-6000:]
     return os.path.join(tdir, profile, crate), ""
